@@ -165,6 +165,16 @@ pub fn guarded<T, F: FnOnce() -> T + std::panic::UnwindSafe>(f: F) -> Result<T, 
     })
 }
 
+/// run a closure on its own thread and give up waiting after `secs` seconds: None = still running (the thread is
+/// left behind, it cannot be stopped; callers bound how often they let that happen)
+pub fn with_deadline<T: Send + 'static, F: FnOnce() -> T + Send + 'static>(secs: u64, f: F) -> Option<T> {
+    let (tx, rx) = std::sync::mpsc::channel();
+    std::thread::spawn(move || {
+        let _ = tx.send(f());
+    });
+    rx.recv_timeout(std::time::Duration::from_secs(secs)).ok()
+}
+
 pub fn quiet_panics() {
     std::panic::set_hook(Box::new(|_| {}));
 }
